@@ -9,7 +9,14 @@ import (
 	"strings"
 )
 
-const repoRoot = "/repo"
+var repoRoot = repoRootFromEnv()
+
+func repoRootFromEnv() string {
+	if r := os.Getenv("SYMGO_REPO"); r != "" {
+		return r
+	}
+	return "/repo"
+}
 const modPath = "github.com/bio-routing/bio-rd"
 
 // Descriptor: /verif/harness/<id>/descriptor.json
